@@ -8,6 +8,8 @@ class SpecC03(e1_driver.Spec):
     prop = 'C03'
     monitor = mon.MonC03
     profile = dict(p_pool_l=0.45, p_pool_s=0.15, blob_any=True,
+                   prior_choices=['fn', 'fn_inplace', 'fn_inplace', 'obj',
+                                  'obj_array', 'fn_dict'],
                    n_batch=[1, 1, 2, 5, 7, 10, 20, 50],
                    fault_kinds=['stop_resume', 'stop_resume', 'kill', 'kill',
                                 'slice', 'toggle', 'timeout'])
